@@ -569,7 +569,23 @@ def main(argv):
     if a.prop == 'C11':
         import kani_engine
         return kani_engine.run('C11', a.tier, seed)
-    return check_property(a.prop, a.tier, seed, a.keep)
+    rc = check_property(a.prop, a.tier, seed, a.keep)
+    if rc == 0 and a.tier == 'thorough' and not os.environ.get('VERIF_REPO'):
+        # thorough: also replay the seeded changes of this property against a scratch copy (self-test of the contracts);
+        # the outcome is recorded in the evidence and printed, it does not change the verdict on the tree
+        import io
+        import contextlib
+        import selftest
+        buf = io.StringIO()
+        evp = os.path.join(VERIF, 'evidence', a.prop + '.json')
+        ev_txt = open(evp).read()
+        with contextlib.redirect_stdout(buf):
+            st = selftest.run(a.prop)
+        ev = json.loads(ev_txt)
+        ev['coverage']['selftest'] = [l for l in buf.getvalue().split('\n') if l.startswith('selftest')]
+        json.dump(ev, open(evp, 'w'), indent=1)
+        print('SELFTEST property=%s %s' % (a.prop, 'all seeded changes give the recorded verdict, harmless edits raise no alarm' if st == 0 else 'UNEXPECTED RESULTS (see evidence.coverage.selftest)'))
+    return rc
 
 
 if __name__ == '__main__':
